@@ -23,12 +23,18 @@ type c09cfg struct {
 	// slowSecond: the probe timeout (2.5 intervals) exceeds the interval and every target's second probe answers 2xx only after
 	// 1.3 intervals; the scripts describe the probes after it
 	slowSecond bool
+	// lateLast: the last target fails its first lateLast probes, so the deploy keeps waiting for it while the other
+	// targets (already healthy) go through their scripts
+	lateLast int
 }
 
 func (c c09cfg) String() string {
 	r := fmt.Sprintf("targets=%d scripts=%s kinds=%s clients=%d", len(c.scripts), strings.Join(c.scripts, ","), strings.Join(c.kinds, ","), c.clients)
 	if c.slowSecond {
 		r += " slowSecond"
+	}
+	if c.lateLast > 0 {
+		r += fmt.Sprintf(" lateLast=%d", c.lateLast)
 	}
 	return r
 }
@@ -60,14 +66,14 @@ func c09Configs(tier string) []c09cfg {
 	kinds := []string{"refuse", "500", "slow"}
 	var cfgs []c09cfg
 	for i, s := range all {
-		cfgs = append(cfgs, c09cfg{[]string{s}, []string{kinds[i%3]}, 1, false})
+		cfgs = append(cfgs, c09cfg{[]string{s}, []string{kinds[i%3]}, 1, false, 0})
 	}
 	for i, a := range all {
 		for j, b := range all {
 			if tier == "quick" && changes(a)+changes(b) > 3 {
 				continue
 			}
-			cfgs = append(cfgs, c09cfg{[]string{a, b}, []string{kinds[i%3], kinds[(j+1)%3]}, 1, false})
+			cfgs = append(cfgs, c09cfg{[]string{a, b}, []string{kinds[i%3], kinds[(j+1)%3]}, 1, false, 0})
 		}
 	}
 	for i, a := range all {
@@ -83,7 +89,7 @@ func c09Configs(tier string) []c09cfg {
 				if tier == "quick" && (i+j+k)%4 != 0 {
 					continue
 				}
-				cfgs = append(cfgs, c09cfg{[]string{a, b, c}, []string{kinds[i%3], kinds[(j+1)%3], kinds[(k+2)%3]}, 1, false})
+				cfgs = append(cfgs, c09cfg{[]string{a, b, c}, []string{kinds[i%3], kinds[(j+1)%3], kinds[(k+2)%3]}, 1, false, 0})
 			}
 		}
 	}
@@ -94,7 +100,7 @@ func c09Configs(tier string) []c09cfg {
 			sc := []string{pat[0], pat[0], pat[0]}
 			sc[pos] = pat[1]
 			for _, k := range []string{"refuse", "500"} {
-				cfgs = append(cfgs, c09cfg{sc, []string{k, k, k}, 1, false})
+				cfgs = append(cfgs, c09cfg{sc, []string{k, k, k}, 1, false, 0})
 			}
 		}
 	}
@@ -103,6 +109,11 @@ func c09Configs(tier string) []c09cfg {
 	for _, sc := range [][]string{{"fffo"}, {"ffoo"}, {"fffo", "oooo"}, {"oooo", "fffo"}} {
 		ks := []string{"500", "refuse"}[:len(sc)]
 		cfgs = append(cfgs, c09cfg{scripts: sc, kinds: ks, clients: 1, slowSecond: true})
+	}
+	// a target that became healthy early fails again while the deploy is still waiting for a slower one
+	for _, sc := range [][]string{{"ffff", "oooo"}, {"ffoo", "oooo"}, {"ffff", "oooo", "oooo"}, {"oooo", "ffff", "oooo"}} {
+		ks := []string{"500", "refuse", "500"}[:len(sc)]
+		cfgs = append(cfgs, c09cfg{scripts: sc, kinds: ks, clients: 1, lateLast: 2})
 	}
 	if tier != "quick" {
 		n := len(cfgs)
@@ -137,6 +148,13 @@ func c09Scenario(c c09cfg) *Scenario {
 		marks = nil
 		for i, n := range names {
 			steps := []memnet.ProbeStep{pOK()}
+			if c.lateLast > 0 && i == len(names)-1 {
+				steps = nil
+				for x := 0; x < c.lateLast; x++ {
+					steps = append(steps, p500())
+				}
+				steps = append(steps, pOK())
+			}
 			if c.slowSecond {
 				steps = append(steps, pOKAfter(vI+3*vI/10))
 			}
